@@ -57,9 +57,11 @@ fn fsection(r: IntersectResult<crate::p3::shape::Polyline>) -> String {
             for e in pl.indices() { s.push_str(&format!(" {} {}", e[0], e[1])); }
             s } }
 }
+fn ksplit(r: SplitResult<TriMesh>) -> &'static str { match r { SplitResult::Negative => "neg", SplitResult::Positive => "pos", SplitResult::Pair(..) => "cut" } }
+fn ksection(r: IntersectResult<crate::p3::shape::Polyline>) -> &'static str { match r { IntersectResult::Negative => "neg", IntersectResult::Positive => "pos", IntersectResult::Intersect(..) => "cut" } }
 fn same(x: &str, y: &str) -> &'static str { if x == y { "same" } else { "diff" } }
 /// functions that call a plane-section routine: run in a killable child process (see `tm_section`)
-fn calls_section(func: &str) -> bool { matches!(func, "tm_section" | "tm_section_pos" | "tm_canon_section" | "tm_plane_pos" | "tm_plane_canon") }
+fn calls_section(func: &str) -> bool { matches!(func, "tm_section" | "tm_section_pos" | "tm_canon_section" | "tm_plane_pos" | "tm_plane_canon" | "tm_verdict" | "tm_verdict_pos" | "tm_verdict_canon") }
 
 pub fn exec(func: &str, a: &mut Args) -> String {
     if std::env::var("C17_DRY").is_ok() { return "dry".into(); } // debugging aid: list the generated cases without calling parry
@@ -157,6 +159,13 @@ pub fn exec(func: &str, a: &mut Args) -> String {
         "tm_plane_canon" => { let m = mesh(a); let axis = a.u(); let bias = a.f(); let eps = a.f(); let la = Unit::new_unchecked(d3::v(a));
             format!("split:{} section:{}", same(&fsplit(m.canonical_split(axis, bias, eps)), &fsplit(m.local_split(&la, bias, eps))),
                 same(&fsection(m.canonical_intersection_with_plane(axis, bias, eps)), &fsection(m.intersection_with_local_plane(&la, bias, eps)))) }
+        // the Negative / Positive / cut decision of (split, section), bit-exact against the model's `meshVerdict*`
+        "tm_verdict" => { let m = mesh(a); let n = Unit::new_unchecked(d3::v(a)); let bias = a.f(); let eps = a.f();
+            format!("{} {}", ksplit(m.local_split(&n, bias, eps)), ksection(m.intersection_with_local_plane(&n, bias, eps))) }
+        "tm_verdict_pos" => { let m = mesh(a); let pos = d3::iso(a); let n = Unit::new_unchecked(d3::v(a)); let bias = a.f(); let eps = a.f();
+            format!("{} {}", ksplit(m.split(&pos, &n, bias, eps)), ksection(m.intersection_with_plane(&pos, &n, bias, eps))) }
+        "tm_verdict_canon" => { let m = mesh(a); let axis = a.u(); let bias = a.f(); let eps = a.f();
+            format!("{} {}", ksplit(m.canonical_split(axis, bias, eps)), ksection(m.canonical_intersection_with_plane(axis, bias, eps))) }
         "seg_canon_split" => { let p = d3::p(a); let q = d3::p(a); let axis = a.u(); let bias = a.f(); let eps = a.f();
             match Segment::new(p, q).canonical_split(axis, bias, eps) { SplitResult::Negative => "neg".to_string(), SplitResult::Positive => "pos".to_string(),
                 SplitResult::Pair(l, r) => format!("pair {} {} {} {}", d3::fp(&l.a), d3::fp(&l.b), d3::fp(&r.a), d3::fp(&r.b)) } }
@@ -611,6 +620,7 @@ pub fn gen(r: &mut Rng, thorough: bool) -> Vec<(String, String)> {
                     _ => r.uniform(lo - 0.1, hi + 0.1) };
                 let args = format!("{} {} {} {}", hmesh(oriented, &mv, &mi), d3::hv(&nrm), hx(bias), hx(eps));
                 v.push(("tm_split".into(), args.clone()));
+                v.push(("tm_verdict".into(), args.clone()));
                 v.push(("tm_section".into(), args));
             }
             if it % 8 == 0 {
@@ -655,6 +665,7 @@ pub fn gen(r: &mut Rng, thorough: bool) -> Vec<(String, String)> {
             let args = format!("{} {} {} {} {}", hm, d3::hiso(&pos), d3::hv(&nrm), hx(bias), hx(eps));
             v.push(("tm_split_pos".into(), args.clone()));
             v.push(("tm_section_pos".into(), args.clone()));
+            v.push(("tm_verdict_pos".into(), args.clone()));
             let un = Unit::new_unchecked(nrm);
             let la = pos.inverse_transform_unit_vector(&un);
             let lb = bias + (-pos.translation.vector.dot(&un));
@@ -671,6 +682,7 @@ pub fn gen(r: &mut Rng, thorough: bool) -> Vec<(String, String)> {
             let args = format!("{} {} {} {}", hm, axis, hx(bias), hx(eps));
             v.push(("tm_canon_split".into(), args.clone()));
             v.push(("tm_canon_section".into(), args.clone()));
+            v.push(("tm_verdict_canon".into(), args.clone()));
             v.push(("tm_plane_canon".into(), format!("{} {}", args, d3::hv(&V3::ith_axis(axis)))));
         }
     }
